@@ -12,6 +12,7 @@ import TantivyModel.Proofs.Columnar.DictColumn
 import TantivyModel.Proofs.Columnar.DictStack
 import TantivyModel.Proofs.Columnar.DictKept
 import TantivyModel.Proofs.Columnar.ColumnFile
+import TantivyModel.Proofs.Columnar.FileEndToEnd
 /-!
 # C08 — Fast fields return exactly the values that were indexed
 
@@ -393,6 +394,43 @@ theorem C08_column_file_roundtrip (startsCodec valCodec : Nat) (card : Card) (ro
     (henc : columnFileEnc startsCodec valCodec (encodeAs card rows).1 (encodeAs card rows).2 = some bytes) :
     ∃ f, openColumnFile bytes = some f ∧ f.read = rows :=
   columnFile_roundtrip startsCodec valCodec card rows hfit hv hn hvals bytes hibl henc
+
+/-- operation log → bytes → rows: the column file serialized from what the writer pipeline produces
+(`writerEncode`: ColumnWriter::record, cardinality detection, index builders) opens, and every
+document reads back exactly the values recorded for it, in insertion order. -/
+theorem C08_writer_file_roundtrip (startsCodec valCodec : Nat) (rows : Column Nat)
+    (hv : ∀ r ∈ rows, ∀ v ∈ r, v < 2 ^ 64) (hn : rows.length ≤ 65535 * 65536)
+    (hvals : rows.flatten.length < 2 ^ 32) (bytes : Bytes)
+    (hibl : ∀ ib, indexEnc startsCodec (writerEncode rows).1 = some ib → ib.length < 2 ^ 32)
+    (henc : columnFileEnc startsCodec valCodec (writerEncode rows).1 (writerEncode rows).2 = some bytes) :
+    ∃ f, openColumnFile bytes = some f ∧ f.read = rows :=
+  writer_file_roundtrip startsCodec valCodec rows hv hn hvals bytes hibl henc
+
+/-- shuffled merge → bytes → rows: the column file serialized from the merged (index, values) opens
+and reads back as `mergeSpec` of what a reader sees of the inputs. -/
+theorem C08_merge_file_roundtrip (startsCodec valCodec : Nat) (card : Card) (order : List (Nat × Nat))
+    (ins : List (MergeInput Nat))
+    (hvalid : ∀ a ∈ order, validAddr ins a)
+    (hfit : card.fits (order.map (inputRow ins)))
+    (hv : ∀ a ∈ order, ∀ v ∈ inputRow ins a, v < 2 ^ 64) (hn : order.length ≤ 65535 * 65536)
+    (hvals : (order.map (inputRow ins)).flatten.length < 2 ^ 32) (bytes : Bytes)
+    (hibl : ∀ ib, indexEnc startsCodec (mergeShuffledAs card order ins).1 = some ib → ib.length < 2 ^ 32)
+    (henc : columnFileEnc startsCodec valCodec (mergeShuffledAs card order ins).1
+      (mergeShuffledAs card order ins).2 = some bytes) :
+    ∃ f, openColumnFile bytes = some f ∧ f.read = mergeSpec order (ins.map MergeInput.read) :=
+  merge_file_roundtrip startsCodec valCodec card order ins hvalid hfit hv hn hvals bytes hibl henc
+
+/-- Str / Bytes column file (`open_column_bytes`): `[dictionary][term ordinal column file][dictionary
+length u32 LE]` splits back into the dictionary bytes and the ordinal column, which opens as above
+(the dictionary itself is an sstable: C15). -/
+theorem C08_bytes_column_file (dict colFile : Bytes) (hd : dict.length < 2 ^ 32) (f : ColFile)
+    (hf : openColumnFile colFile = some f) :
+    openBytesColumnFile (bytesColumnFileEnc dict colFile) = some (dict, f) :=
+  bytesColumnFile_open dict colFile hd f hf
+
+example : ((columnFileEnc 0 0 (writerEncode [[4], [], [4, 1]]).1 (writerEncode [[4], [], [4, 1]]).2).bind
+      (fun c => openBytesColumnFile (bytesColumnFileEnc [9, 9, 9] c))).map (fun p => (p.1, p.2.read))
+    = some ([9, 9, 9], [[4], [], [4, 1]]) := by decide
 
 /-- the same for u128 (IP address) column files (`open_column_u128`): column index bytes + the
 compact-space column + index length, for any valid compact space covering the values. -/
